@@ -5,6 +5,7 @@ import (
 	"go/ast"
 	"go/token"
 	"go/types"
+	"golang.org/x/tools/go/cfg"
 	"strings"
 )
 
@@ -283,21 +284,55 @@ func checkOrderedMapCoupling(r *Reporter, p *Prog) {
 			r.Unresolved("omap/iteration-order", key, "method not found")
 			continue
 		}
+		// the loop that invokes the consumer walks a cursor: every assignment to the cursor inside
+		// the loop is <cursor>.<step>, and what reaches the loop from outside is <map>.<start>
+		// (resolved through temporaries and locked accessor helpers)
 		var starts, steps []string
-		ast.Inspect(fd.Body, func(n ast.Node) bool {
-			as, ok := n.(*ast.AssignStmt)
-			if !ok || len(as.Lhs) != 1 || len(as.Rhs) != 1 {
-				return true
-			}
-			if se, ok := ast.Unparen(as.Rhs[0]).(*ast.SelectorExpr); ok {
-				if as.Tok == token.DEFINE {
-					starts = append(starts, se.Sel.Name)
-				} else if objOfIdent(info, as.Lhs[0]) != nil && objOfIdent(info, as.Lhs[0]) == rootObj(info, se.X) {
-					steps = append(steps, se.Sel.Name)
+		{
+			f := newFuncCFG(p, info, fd.Body, key)
+			params := paramObjs(info, fd)
+			var cursor types.Object
+			var loop *loopInfo
+			for _, l := range f.Loops() {
+				l := l
+				for _, pt := range f.Find(func(n ast.Node) bool {
+					c, ok := n.(*ast.CallExpr)
+					return ok && len(params) > 0 && objOfIdent(info, c.Fun) == params[0]
+				}) {
+					if f.InLoopBody(l, pt) {
+						loop = &l
+						// the cursor is the variable whose fields are handed to the consumer
+						inspectNoLit(f.nodeAt(pt), func(m ast.Node) bool {
+							if c, ok := m.(*ast.CallExpr); ok && objOfIdent(info, c.Fun) == params[0] && len(c.Args) > 0 {
+								cursor = rootObj(info, c.Args[0])
+							}
+							return true
+						})
+					}
 				}
 			}
-			return true
-		})
+			if loop != nil && cursor != nil {
+				for _, b := range f.G.Blocks {
+					if !b.Live {
+						continue
+					}
+					for i, nd := range b.Nodes {
+						as, ok := nd.(*ast.AssignStmt)
+						if !ok || len(as.Lhs) != 1 || len(as.Rhs) != 1 || objOfIdent(info, as.Lhs[0]) != cursor {
+							continue
+						}
+						pt := Point{b, i}
+						k := f.KeyAt(as.Rhs[0], pt)
+						fieldName := k[strings.LastIndex(k, ".")+1:]
+						if f.InLoopBody(*loop, pt) || b.Kind == cfg.KindForPost {
+							steps = append(steps, fieldName)
+						} else {
+							starts = append(starts, fieldName)
+						}
+					}
+				}
+			}
+		}
 		if len(starts) == 1 && starts[0] == row.start && len(steps) == 1 && steps[0] == row.step {
 			r.Pass("omap/iteration-order", key, p.posStr(fd.Pos()), "starts at "+row.start+" and follows "+row.step)
 		} else {
@@ -456,30 +491,70 @@ func checkSetProtocol(r *Reporter, p *Prog) {
 					lparams[info.Defs[nm]] = true
 				}
 			}
-			changed := func(e ast.Expr) (isSet, isDel bool) {
-				c, ok := e.(*ast.CallExpr)
-				if !ok {
-					return
+			// what a branch atom stands for: result #idx of a call - written as the call itself,
+			// as lo.Return2(call), or as a variable bound to one of the call's results
+			atomCall := func(e ast.Expr, pt Point) (*ast.CallExpr, int) {
+				e = ast.Unparen(e)
+				if c, ok := e.(*ast.CallExpr); ok {
+					if strings.HasSuffix(exprKey(c.Fun), "Return2") && len(c.Args) == 1 {
+						if ic, ok := ast.Unparen(c.Args[0]).(*ast.CallExpr); ok {
+							return ic, 1
+						}
+					}
+					if strings.HasSuffix(exprKey(c.Fun), "Return1") && len(c.Args) == 1 {
+						if ic, ok := ast.Unparen(c.Args[0]).(*ast.CallExpr); ok {
+							return ic, 0
+						}
+					}
+					return c, 0
 				}
-				// lo.Return2(s.Set(element, …))
-				if strings.HasSuffix(exprKey(c.Fun), "Return2") && len(c.Args) == 1 {
-					if ic, ok := ast.Unparen(c.Args[0]).(*ast.CallExpr); ok {
-						if m, isMut := isMutation(ic); isMut && m == "Set" && len(ic.Args) > 0 && lparams[objOfIdent(info, ic.Args[0])] {
-							return true, false
+				if id, ok := e.(*ast.Ident); ok {
+					obj := info.Uses[id]
+					if obj == nil {
+						return nil, 0
+					}
+					defs, fromEntry := lf.ReachingDefs(pt, obj)
+					if len(defs) == 1 && !fromEntry {
+						if as, ok := lf.nodeAt(defs[0].At).(*ast.AssignStmt); ok && len(as.Rhs) == 1 {
+							if c, ok := ast.Unparen(as.Rhs[0]).(*ast.CallExpr); ok {
+								for i, l := range as.Lhs {
+									if objOfIdent(info, l) == obj {
+										return c, i
+									}
+								}
+							}
 						}
 					}
 				}
-				if m, isMut := isMutation(c); isMut && m == "Delete" && len(c.Args) == 1 && lparams[objOfIdent(info, c.Args[0])] {
+				return nil, 0
+			}
+			changed := func(e ast.Expr, pt Point) (isSet, isDel bool) {
+				c, idx := atomCall(e, pt)
+				if c == nil {
+					return
+				}
+				if m, isMut := isMutation(c); isMut && m == "Set" && idx == 1 && len(c.Args) > 0 && lparams[objOfIdent(info, c.Args[0])] {
+					return true, false
+				}
+				if m, isMut := isMutation(c); isMut && m == "Delete" && idx == 0 && len(c.Args) == 1 && lparams[objOfIdent(info, c.Args[0])] {
 					return false, true
 				}
 				// s.Delete(element) of the set itself
-				if se, ok := ast.Unparen(c.Fun).(*ast.SelectorExpr); ok && se.Sel.Name == "Delete" && len(c.Args) == 1 && lparams[objOfIdent(info, c.Args[0])] {
+				if se, ok := ast.Unparen(c.Fun).(*ast.SelectorExpr); ok && se.Sel.Name == "Delete" && idx == 0 && len(c.Args) == 1 && lparams[objOfIdent(info, c.Args[0])] {
 					return false, true
 				}
 				return
 			}
-			_, setFalse := lf.CondEdges(func(e ast.Expr) bool { s, _ := changed(e); return s })
-			delTrue, _ := lf.CondEdges(func(e ast.Expr) bool { _, d := changed(e); return d })
+			var setFalse, delTrue []Edge
+			lf.forEachEdgeFact(func(e Edge, b *cfg.Block, ft fact) {
+				isSet, isDel := changed(ft.Atom, Point{b, len(b.Nodes) - 1})
+				if isSet && !ft.Pol {
+					setFalse = append(setFalse, e) // "already present" is false: the element was added
+				}
+				if isDel && ft.Pol {
+					delTrue = append(delTrue, e)
+				}
+			})
 			lic := append(append([]Edge{}, setFalse...), delTrue...)
 			for _, pt := range lf.Find(func(n ast.Node) bool {
 				c, ok := n.(*ast.CallExpr)
@@ -645,35 +720,68 @@ func checkSetArithmetic(r *Reporter, p *Prog) {
 	if fd := p.FuncDecl(pkg, "setArithmetic", "elementsCollector"); fd == nil {
 		r.Unresolved("arith/threshold", "ds.setArithmetic.elementsCollector", "method not found")
 	} else {
+		// resolved through temporaries (also those hoisted out of the closures):
+		//  step      the count function returns currentValue + Cond(increase, 1, -1)
+		//  threshold targetSet.Add only where the new count == Cond(increase, threshold, threshold-1)
+		//  opposing  ... and where opposingSet.Delete(element) reported false
 		src := ""
+		var okStep, okThr, okOpp, addsTarget bool
+		var elemLit *ast.FuncLit
 		ast.Inspect(fd.Body, func(n ast.Node) bool {
-			if is, ok := n.(*ast.IfStmt); ok && src == "" {
-				src = exprKey(is.Cond)
-			}
-			return true
-		})
-		stepSrc := ""
-		ast.Inspect(fd.Body, func(n ast.Node) bool {
-			if lit, ok := n.(*ast.FuncLit); ok && lit.Type.Params.NumFields() == 2 {
-				ast.Inspect(lit.Body, func(m ast.Node) bool {
-					if rs, ok := m.(*ast.ReturnStmt); ok && len(rs.Results) == 1 {
-						stepSrc = exprKey(rs.Results[0])
+			if lit, ok := n.(*ast.FuncLit); ok {
+				switch lit.Type.Params.NumFields() {
+				case 2:
+					lf := newFuncCFG(p, info, lit.Body, "count")
+					for _, b := range lf.G.Blocks {
+						for i, nd := range b.Nodes {
+							if rs, ok := nd.(*ast.ReturnStmt); ok && len(rs.Results) == 1 && b.Live {
+								k := lf.KeyAt(rs.Results[0], Point{b, i})
+								src += " step=" + k
+								if k == "(currentValue+lo.Cond(increase,1,-1))" || k == "(lo.Cond(increase,1,-1)+currentValue)" {
+									okStep = true
+								}
+							}
+						}
 					}
-					return true
-				})
+				case 1:
+					if elemLit == nil {
+						elemLit = lit
+					}
+				}
 			}
 			return true
 		})
-		okStep := stepSrc == "(currentValue+lo.Cond(increase,1,-1))"
-		okThr := strings.Contains(src, "==lo.Cond(increase,threshold,(threshold-1))")
-		okOpp := strings.Contains(src, "!opposingSet.Delete(element)")
-		addsTarget := false
-		ast.Inspect(fd.Body, func(n ast.Node) bool {
-			if c, ok := n.(*ast.CallExpr); ok && exprKey(c.Fun) == "targetSet.Add" {
-				addsTarget = true
+		if elemLit != nil {
+			ef := newFuncCFG(p, info, elemLit.Body, "collect")
+			adds := ef.Find(func(n ast.Node) bool {
+				c, ok := n.(*ast.CallExpr)
+				return ok && exprKey(c.Fun) == "targetSet.Add"
+			})
+			addsTarget = len(adds) > 0
+			crossing := ef.RelEdgesAt(func(rel Rel) bool {
+				if rel.Op != "==" {
+					return false
+				}
+				want := "lo.Cond(increase,threshold,(threshold-1))"
+				other := rel.L
+				if rel.L == want {
+					other = rel.R
+				} else if rel.R != want {
+					return false
+				}
+				return strings.Contains(other, ".Compute(element,")
+			})
+			_, notDeleted := ef.CondEdges(func(e ast.Expr) bool { return exprKey(e) == "opposingSet.Delete(element)" })
+			okThr, okOpp = len(crossing) > 0, len(notDeleted) > 0
+			for _, a := range adds {
+				if _, only := ef.OnlyThroughEdges(a, crossing); !only {
+					okThr = false
+				}
+				if _, only := ef.OnlyThroughEdges(a, notDeleted); !only {
+					okOpp = false
+				}
 			}
-			return true
-		})
+		}
 		if okStep && okThr && okOpp && addsTarget {
 			r.Pass("arith/threshold", "ds.setArithmetic.elementsCollector", p.posStr(fd.Pos()), "count +-1 by direction; crossing = threshold (up) / threshold-1 (down); cancels against the opposite set first")
 		} else {
